@@ -349,7 +349,10 @@ class Engine:
             if len(p) == 1:
                 (m, c), = p.items()
                 if len(m) == 1 and m[0][1] == 1 and m[0][0] in self.sqrt_rad:
-                    self.assume(Atom(self.sqrt_rad[m[0][0]], '==' if zero else '!='))
+                    # (r != 0 => radicand != 0 is not propagated: a disequality over a long polynomial makes every later LRA query
+                    # of the path split cases, and nothing needs it - the radicand is > 0 by r^2 = radicand, r > 0 where it matters)
+                    if zero:
+                        self.assume(Atom(self.sqrt_rad[m[0][0]], '=='))
                     return
             for key in (tuple(sorted(p.items())), tuple(sorted(pneg(p).items()))):
                 r = self.sqrts.get(key)
